@@ -174,6 +174,7 @@ Definition typed_field_ok (a : xaction) : Prop :=
 (* the proofs below hold whatever the probes say: keep them from being unfolded by cbn *)
 Arguments fieldref_renders_own_type : simpl never.
 Arguments validate_keeps_group_attrs : simpl never.
+Arguments router_lists_shared_exit_once : simpl never.
 
 Lemma render_lower_action a :
   wf_action a -> typed_field_ok a -> render_action (lower_action a) = Ok (norm_action (emit_action a)).
@@ -266,8 +267,10 @@ Lemma category_order_refuted : roundtrip w_category_order <> Ok (norm w_category
 Proof. intros H. vm_compute in H. discriminate H. Qed.
 Lemma exit_order_refuted : roundtrip w_exit_order <> Ok (norm w_exit_order).
 Proof. intros H. vm_compute in H. discriminate H. Qed.
-Lemma shared_exit_refuted : roundtrip w_shared_exit <> Ok (norm w_shared_exit).
-Proof. intros H. vm_compute in H. discriminate H. Qed.
+Lemma shared_exit_witness :
+  if router_lists_shared_exit_once then roundtrip w_shared_exit = Ok (norm w_shared_exit)
+  else roundtrip w_shared_exit <> Ok (norm w_shared_exit).
+Proof. destruct router_lists_shared_exit_once eqn:E; by_probe E. Qed.
 Lemma canonical_control : roundtrip w_canonical = Ok (norm w_canonical) /\ norm w_canonical = w_canonical.
 Proof. split; vm_compute; reflexivity. Qed.
 (* every witness is loaded and rendered without error, and the second pass changes nothing *)
